@@ -248,3 +248,73 @@ Lemma factor_S : forall f s, factor fx (S f) s =
 Proof. reflexivity. Qed.
 
 End Unfold.
+
+Section UnfoldG.
+Variable lf : P expr.
+
+(** unfolding equations of the mutual fixpoint *)
+Lemma or_expr_g_S : forall f s, or_expr_g lf (S f) s =
+  match and_expr_g lf f s with
+  | Ok (x, r) =>
+      match ci K_OR (ws r) with
+      | Some r1 =>
+          match or_expr_g lf f (ws r1) with
+          | Ok (y, r2) => Ok (EOr x y, r2)
+          | Err => Ok (x, r)
+          | Panic k => Panic k
+          | OOF => OOF
+          end
+      | None => Ok (x, r)
+      end
+  | other => other
+  end.
+Proof. reflexivity. Qed.
+
+Lemma and_expr_g_S : forall f s, and_expr_g lf (S f) s =
+  match factor_g lf f s with
+  | Ok (x, r) =>
+      match ci K_AND (ws r) with
+      | Some r1 =>
+          match and_expr_g lf f (ws r1) with
+          | Ok (y, r2) => Ok (EAnd x y, r2)
+          | Err => Ok (x, r)
+          | Panic k => Panic k
+          | OOF => OOF
+          end
+      | None => Ok (x, r)
+      end
+  | other => other
+  end.
+Proof. reflexivity. Qed.
+
+Definition paren_or_leaf_g (f : nat) (s : bytes) : res (expr * bytes) :=
+  match (match lit 40 s with
+         | Some r1 =>
+             match or_expr_g lf f (ws r1) with
+             | Ok (e, r2) =>
+                 match lit 41 (ws r2) with
+                 | Some r3 => Ok (e, r3)
+                 | None => Err
+                 end
+             | other => other
+             end
+         | None => Err
+         end) with
+  | Err => lf s
+  | other => other
+  end.
+
+Lemma factor_g_S : forall f s, factor_g lf (S f) s =
+  match ci K_NOT s with
+  | Some r1 =>
+      match factor_g lf f (ws r1) with
+      | Ok (x, r2) => Ok (ENot x, r2)
+      | Err => paren_or_leaf_g f s
+      | Panic k => Panic k
+      | OOF => OOF
+      end
+  | None => paren_or_leaf_g f s
+  end.
+Proof. reflexivity. Qed.
+
+End UnfoldG.
